@@ -52,6 +52,7 @@ type XMLGenConfig struct {
 	NonASCII    bool
 	EmptyCDATA  bool
 	MixedText   bool
+	NSMix       bool // default namespace declared and undeclared again and again (xmlns="" below namespaced parents)
 	Entities    bool // the reader is given the custom entity ent = "EV"; some "EV" are written as &ent;
 	Pad         int  // > 0: a comment of about that many bytes near the start pushes later content across internal buffer boundaries
 	LangBias    bool // many xml:lang attributes (for lang() workloads)
@@ -85,6 +86,7 @@ func DrawXMLConfig(t *simkit.Tape) XMLGenConfig {
 // "urn:a"+"bc" == "urn:ab"+"c": expanded names that collide when URI and local name are glued without a separator
 var uriPool = []string{"urn:a", "urn:b", "http://x.example/y?z=1&w=2", "urn:c:d", "urn:ab"}
 var prefixPool = []string{"p", "q", "r", "xs"}
+var widePrefixes = []string{"a0", "n1", "n2", "n3", "n4", "n5", "n6", "n7", "n8", "w", "xa", "xmk", "xmm", "y", "zz", "B"}
 var localPool = []string{"a", "b", "c", "item", "x-y", "n.1", "_u", "bc"}
 var localPoolNA = []string{"é", "日本", "ñame"}
 
@@ -243,8 +245,14 @@ func (g *xmlGen) element(depth int, parentScope map[string]string) *Node {
 	scope := copyScope(parentScope)
 	if g.cfg.Namespaces {
 		nd := g.t.Pick(5, 3, 1)
+		kindW := []int{6, 6, 2, 1}
+		if g.cfg.NSMix {
+			// namespaced parents with several children in no namespace and back
+			nd = g.t.Pick(2, 4, 3)
+			kindW = []int{3, 6, 7, 1}
+		}
 		for i := 0; i < nd; i++ {
-			switch g.t.Pick(6, 6, 2, 1) {
+			switch g.t.Pick(kindW...) {
 			case 3: // the legal explicit declaration of the xml prefix
 				if hasDecl(e.Decls, "xml") {
 					continue
@@ -272,6 +280,21 @@ func (g *xmlGen) element(depth int, parentScope map[string]string) *Node {
 				e.Decls = append(e.Decls, Decl{"", ""})
 				delete(scope, "")
 			}
+		}
+	}
+	if g.cfg.Namespaces && g.cfg.Wide && g.t.Bool(1, 6) {
+		// many declarations on one element (lookup structures switch strategy with
+		// size); prefixes that sort before and after "xml"
+		k := 6 + g.t.Draw(9)
+		off := g.t.Draw(len(widePrefixes))
+		for i := 0; i < k; i++ {
+			p := widePrefixes[(off+i)%len(widePrefixes)]
+			if hasDecl(e.Decls, p) {
+				continue
+			}
+			u := uriPool[g.t.Draw(len(uriPool))]
+			e.Decls = append(e.Decls, Decl{p, u})
+			scope[p] = u
 		}
 	}
 	e.InScope = scope
